@@ -123,6 +123,65 @@ pub fn run(tier: Tier) -> i32 {
         }
     }
 
+    // ---------------------------------------------------------------- the declared size is reached INSIDE a copy: the window grows past
+    // the declared size (the size is only looked at between symbols), so a limit between the declared size and the bytes
+    // really produced is exceeded - whatever the header promised
+    {
+        let name = "declared-size-reached-inside-a-copy";
+        if ctx.may_start(name) {
+            let t0 = Instant::now();
+            let mut items: Vec<(usize, usize, u32, u64, u8)> = Vec::new();
+            for u in [20usize, 100, 300, 4000] {
+                for before in [1usize, 5, 100] {
+                    for over in [1u32, 30, 200] {
+                        for mk in 0..3u64 {
+                            for how in 0..4u8 {
+                                items.push((u, before, over, mk, how));
+                            }
+                        }
+                    }
+                }
+            }
+            par_for(items.len() as u64, |i| {
+                let (u, before, over, mk, how) = items[i as usize];
+                if before >= u {
+                    return;
+                }
+                // u - before bytes, then one copy of before + over bytes: u + over bytes are produced
+                let mut prog = grow(u - before);
+                let l = (before as u32 + over).min(273).max(2);
+                prog.push(Sym::M(1 + (u as u32 % 7).min((u - before) as u32 - 1), l));
+                let e = enc::encode(3, 0, 2, 1 << 16, &prog);
+                if e.bad.is_some() {
+                    return;
+                }
+                let produced = e.expect.len() as u64;
+                if produced <= u as u64 {
+                    return;
+                }
+                let m = [u as u64, u as u64 + 1, produced - 1][mk as usize];
+                if m >= produced || m < u as u64 {
+                    return;
+                }
+                let file = enc::lzma_file(3, 0, 2, 1 << 16, Some(u as u64), &e.payload);
+                let opts = Opts { memlimit: Some(m), allow_incomplete: how == 3, ..Opts::default() };
+                let case = match how {
+                    0 => Case::Dec { fmt: Fmt::Lzma, opts, input: Hex(file.clone()), rd: Rd::default(), sk: Sk::default() },
+                    1 => Case::Stream { opts, sk: Sk::default(), ops: vec![SOp::WriteAll(Hex(file.clone())), SOp::Finish] },
+                    2 => Case::Stream { opts, sk: Sk::default(), ops: file.iter().map(|b| SOp::WriteAll(Hex(vec![*b]))).chain([SOp::Finish]).collect() },
+                    _ => Case::Stream { opts, sk: Sk::default(), ops: vec![SOp::WriteAll(Hex(file.clone())), SOp::Finish] },
+                };
+                let o = run_case(&case);
+                ctx.eval(1);
+                ctx.nontriv(1);
+                let failed = if o.ops.is_empty() { o.v.is_err() } else { o.ops.iter().any(|r| r.v.is_err()) && !o.ops.iter().any(|r| r.v.is_panic()) };
+                if !(failed && o.out.0.len() as u64 <= m && e.expect.starts_with(&o.out.0)) {
+                    ctx.violation(&case, &format!("header declares {} bytes, the last symbol is a copy that produces {} in all, limit {}: the window needs more than the limit => Err, at most {} bytes (a prefix) delivered", u, produced, m, m), &o, None);
+                }
+            });
+            ctx.scope_done(name, items.len() as u64, t0, "declared sizes 20..4000, copies overshooting by 1..200, limits declared / declared+1 / produced-1, one-shot and Stream");
+        }
+    }
     // ---------------------------------------------------------------- public API, dict 4096 (and a larger one)
     {
         let name = "public/dict=4096,65536/limits-around-need";
